@@ -4,12 +4,15 @@
 cd "$(dirname "$0")/.." || exit 9
 ./check build >/dev/null || exit 9
 out=$(cd harness && VERIF_ROOT="$PWD/.." ./bin/bwcheck -id SELFTEST -tier quick -seed 1 2>&1)
-rm -f evidence/SELFTEST.json
 fail=0
-for k in 'key=panic/nil-map' 'key=crash/boom' 'key=crash/' 'key=deadlock/' 'key=hang/' 'key=selftest-leak/bql/lexer' 'key=harness-race/'; do
+for k in 'key=panic/nil-map' 'key=crash/boom' 'key=crash/' 'key=deadlock/' 'key=selftest-leak/bql/lexer' 'key=harness-race/'; do
   if echo "$out" | grep -q "$k"; then echo "fired: $k"; else echo "MISSING: $k"; fail=1; fi
 done
+# a busy loop in the harness's own code is not a hang of the code under observation: it must end up
+# as an inconclusive case, not as a violation (a real spin inside badwolf is exercised by seeded/C08-r2-1)
+if grep -q 'still running harness code at the hard watchdog' evidence/SELFTEST.json 2>/dev/null || echo "$out" | grep -q 'inconclusive=[1-9]'; then echo "fired: slow harness case is inconclusive"; else echo "MISSING: slow harness case"; fail=1; fi
 n=$(echo "$out" | grep -c '^VIOLATION')
-echo "violations reported: $n (expected 7)"
-[ "$n" = 7 ] || fail=1
+echo "violations reported: $n (expected 6)"
+[ "$n" = 6 ] || fail=1
+rm -f evidence/SELFTEST.json
 exit $fail
